@@ -139,18 +139,17 @@ Proof.
   split; [vm_compute; repeat split; reflexivity|]. reflexivity.
 Qed.
 
-(* ================= candidate finding: a stale cursor survives a change of leader =================
-   The per-follower transmission cursor of the serializer is cancelled when the follower
-   disconnects (D19 repair), when a transfer ends and when a new snapshot has been written - but
-   not when the node stops being leader.  Trace (three voters, snapshots in memory, chunk 4,
-   automatic compaction off, compaction forced by ECompact; ticks with budget 2 are send loops
-   cut by the clock after two pieces):
+(* ================= regression witness FX-C09-2: a stale cursor used to survive a change of leader =================
+   Before the repair (become_leader now cancels the transmission of every peer) the
+   per-follower cursor of the serializer survived the loss of leadership.  Trace (three voters,
+   snapshots in memory, chunk 4, automatic compaction off, compaction forced by ECompact; ticks
+   with budget 2 are send loops cut by the clock after two pieces):
    node 1 leads (term 1), commits 7 and 8, compacts to [3;4] and sends pieces 0,1 of its
    snapshot (position 3) to the lagging node 3: cursor for 3 at offset 8.
    Node 2 is elected (term 2), compacts to [4;5], sends pieces 0,1 of ITS snapshot (position 4)
    to node 3 (node 3 starts over: incoming = pieces of node 2's snapshot).
-   Node 1 is elected again (term 3), node 3 still needs a snapshot, node 1 continues at offset 8:
-   node 3 appends the tail of node 1's snapshot to the head of node 2's and stores the result. *)
+   Node 1 is elected again (term 3): its cursor for 3 is gone, the transfer starts at offset 0
+   with first = true, node 3 drops what it had and installs node 1's snapshot. *)
 Definition cz : conf := mkConf 10 40 20 100 1000 4 true false true 100 100000 10 5 false false.
 Definition stale_cursor_trace : list event :=
   [ERestart 1 [2; 3] 0 0 0; ERestart 2 [1; 3] 0 10 0; ERestart 3 [1; 2] 0 15 0;
@@ -180,38 +179,59 @@ Definition stale_cursor_trace : list event :=
    EDeliver 1 3 301 0 []; EDeliver 3 1 301 0 []; EDeliver 1 2 301 0 [];
    EDeliver 1 2 301 0 []; EDeliver 2 1 301 0 []; EDeliver 2 1 301 0 [];
    ETick 1 310 0 30 [] 9; ETick 1 320 0 30 [] 9; EDeliver 1 3 321 0 [];
-   EDeliver 1 3 321 0 []; EDeliver 1 3 321 0 []; EDeliver 3 1 321 0 [];
-   EDeliver 1 2 321 0 []; EDeliver 2 1 321 0 []].
+   EDeliver 1 3 321 0 []; EDeliver 1 3 321 0 []; EDeliver 1 3 321 0 []; EDeliver 3 1 321 0 []].
 
-(* the statement that fails on the model (and, by the correspondence, on the code): whatever a
-   node holds as its snapshot is a complete snapshot *)
-Definition C09_stored_snapshot_never_corrupt_full : Prop :=
-  forall c evs g x n, run_trace c ginit evs = Some g -> aget x (nodes g) = Some n ->
-  forall l, stored (sr n) <> Some (Corrupt l).
-
-Lemma stale_cursor_after_leader_change :
+Example stale_cursor_regression :
   exists g1 n1 n3 g n3',
-    (* before the last two ticks of the re-elected node 1 *)
+    (* node 1 re-elected: no cursor left; node 3 holds two pieces of node 2's snapshot *)
     run_trace cz ginit (firstn 88 stale_cursor_trace) = Some g1 /\
     aget 1 (nodes g1) = Some n1 /\ aget 3 (nodes g1) = Some n3 /\
-    role n1 = LEADER /\ term n1 = 3 /\
-    map (fun kv => (fst kv, snd (snd kv))) (trans (sr n1)) = [(3, 8)] /\
+    role n1 = LEADER /\ term n1 = 3 /\ trans (sr n1) = [] /\
     option_map (map (fun p => (match fst (fst p) with Good s => eidx (s_e0 s) | Corrupt _ => 0 end,
                                 snd (fst p), snd p))) (incoming (sr n3)) = Some [(4, 0, 4); (4, 4, 4)] /\
-    (* after them *)
+    (* at the end node 3 has installed node 1's snapshot *)
     run_trace cz ginit stale_cursor_trace = Some g /\ aget 3 (nodes g) = Some n3' /\
-    stored (sr n3') = Some (Corrupt 9) /\ applied n3' = 1 /\ map eidx (log n3') = [1].
+    (exists sn, stored (sr n3') = Some (Good sn) /\ eidx (s_e0 sn) = 3 /\ s_hist sn = [7; 8]) /\
+    applied n3' = 4 /\ map eidx (log n3') = [3; 4] /\ hist n3' = [7; 8] /\ incoming (sr n3') = None.
 Proof.
   eexists. eexists. eexists. eexists. eexists.
   split; [vm_compute; reflexivity|]. split; [vm_compute; reflexivity|]. split; [vm_compute; reflexivity|].
   split; [vm_compute; reflexivity|]. split; [vm_compute; reflexivity|]. split; [vm_compute; reflexivity|].
   split; [vm_compute; reflexivity|]. split; [vm_compute; reflexivity|]. split; [vm_compute; reflexivity|].
+  split; [eexists; split; [vm_compute; reflexivity|]; vm_compute; split; reflexivity|].
+  vm_compute. repeat split; reflexivity.
+Qed.
+
+(* ================= what remains: loss in flight that the sender does not notice =================
+   "Whatever a node holds as its snapshot is a complete snapshot" is still false of the model for
+   one reason only that we know of: ELose removes a piece that is in flight (the tail of the
+   channel) and the sender sends the following pieces WITHOUT an EDrop at the sender in between
+   (the D19 repair cancels the cursor at the disconnect notification; without the notification
+   the cursor goes on).  Below: node 1 (re-elected, fresh cursor) sends pieces 0,1 (loop cut by
+   the clock), piece 1 is lost, the next tick sends pieces 2 and last: node 3 assembles offsets
+   0, 8, 9 -> Corrupt.  With a real TCP connection data lost in flight implies a disconnect at
+   the sender before anything is sent on a new connection, so this is a question about the
+   environment (C14: one live connection per peer, disconnect notified before reconnect), not
+   about the serializer. *)
+Definition inflight_loss_trace : list event :=
+  firstn 88 stale_cursor_trace ++
+  [ETick 1 330 0 2 [] 9; ELose 1 3 1; ETick 1 345 0 30 [] 9;
+   EDeliver 1 3 346 0 []; EDeliver 1 3 346 0 []; EDeliver 1 3 346 0 []].
+
+Definition C09_stored_snapshot_never_corrupt_full : Prop :=
+  forall c evs g x n, run_trace c ginit evs = Some g -> aget x (nodes g) = Some n ->
+  forall l, stored (sr n) <> Some (Corrupt l).
+
+Lemma inflight_loss_splices :
+  exists g n3, run_trace cz ginit inflight_loss_trace = Some g /\ aget 3 (nodes g) = Some n3 /\
+    stored (sr n3) = Some (Corrupt 5) /\ applied n3 = 1 /\ map eidx (log n3) = [1].
+Proof.
+  eexists. eexists. split; [vm_compute; reflexivity|]. split; [vm_compute; reflexivity|].
   vm_compute. repeat split; reflexivity.
 Qed.
 
 Lemma stored_snapshot_never_corrupt_refuted : ~ C09_stored_snapshot_never_corrupt_full.
 Proof.
-  intros H.
-  destruct stale_cursor_after_leader_change as (g1 & n1 & n3 & g & n3' & _ & _ & _ & _ & _ & _ & _ & Hg & Hn & Hs & _).
-  exact (H cz stale_cursor_trace g 3 n3' Hg Hn 9 Hs).
+  intros H. destruct inflight_loss_splices as (g & n3 & Hg & Hn & Hs & _).
+  exact (H cz inflight_loss_trace g 3 n3 Hg Hn 5 Hs).
 Qed.
